@@ -182,6 +182,40 @@ def run(ctx):
         if not ok:
             r3.violate("C14|R3|%s" % gname, "%s compares header names without folding the case of both sides" % gname, gfn.file, gfn.span["line"], gname)
 
+    # every other lookup of a request header by name folds the case too (a sibling of get_header must agree with it)
+    for hn, hf in sorted(F.fns.items()):
+        if hf.crate != "rws" or hf.kind == "Promoted" or not hn.startswith("request::Request::") or hn.startswith("request::Request::get_header::") or hn == "request::Request::get_header":
+            continue
+        bodies = [ctx.inl(hf)] if hf.kind != "Closure" else [hf]
+        cmp_name = False
+        folds = 0
+        for body in bodies:
+            bdu = du_of(body)
+            for _, t in body.calls():
+                c = callee_name(t) or ""
+                if re.search(r"impl str>::(to_lowercase|to_uppercase|to_ascii_lowercase|to_ascii_uppercase)$|eq_ignore_ascii_case$", c):
+                    folds += 2 if c.endswith("eq_ignore_ascii_case") else 1
+                if "PartialEq" in c and c.endswith(("::eq", "::ne")):
+                    if any(bdu.val_operand(a)[0] == "const" for a in t["args"]):
+                        continue        # a header looked for by a constant name is not a lookup by the caller's spelling
+                    for a in t["args"]:
+                        v = bdu.val_operand(a)
+                        hops = 0
+                        while v[0] == "call" and v[2] and hops < 4:
+                            v, hops = v[2][0], hops + 1
+                        if v[0] in ("ref", "place") and any(isinstance(e, tuple) and e[0] == "f" and e[2] == "name" for e in v[1][1]) and "header::Header" in " ".join(body.local_ty(l_) or "" for l_ in [v[1][0]]):
+                            cmp_name = True
+        if not cmp_name:
+            continue
+        # the closure's folding calls may sit in the closure or in the function that owns it
+        owner = F.fns.get(hf.parent) if hf.kind == "Closure" and hf.parent in F.fns else None
+        if owner is not None:
+            folds += len([1 for _, t in owner.calls() if re.search(r"impl str>::(to_lowercase|to_ascii_lowercase)$", callee_name(t) or "")])
+        ok = folds >= 2
+        r3.instance({"lookup": hn, "compares_header_name": True, "case_folding_calls": folds}, ok)
+        if not ok:
+            r3.violate("C14|R3|%s" % hn, "%s compares a header's name with the requested name without folding the case of both sides: it disagrees with get_header for `x-forwarded-for` vs `X-Forwarded-For`" % hn, hf.file, hf.span["line"], hn)
+
     # ---- R4 non-UTF-8 head is an error
     r4 = chk.rule("R4-non-utf8-head-is-error", "in the line reader the from_utf8(..).is_err() edge leads to an Err return", floor=1)
     cr = F.fns.get("request::Request::cursor_read")
